@@ -295,9 +295,14 @@ def sequences(chk, w, scalar, depth):
         cnt = 0
         marker = {'A': 101.5, 'B': 202.5}
         rsel, rval, rname = None, {}, {}
+        fresh = []
         for o in sq:
             if o[0] == 'init':
-                lines.append('masa_init<Scalar>("%s","%s"); masa_set_param<Scalar>("%s",(Scalar)%s);' % (o[1], o[2], first_param[o[2]], marker[o[1]]))
+                # a (re-)initialised handle holds a fresh default instance: its first parameter is read back before the marker is written
+                lines.append('masa_init<Scalar>("%s","%s"); { Scalar f_ = masa_get_param<Scalar>("%s"); masa_init<Scalar>("fresh_%d","%s"); printf("\\nR fresh_after_init_%d %%d\\n", (int)(f_ == masa_get_param<Scalar>("%s"))); masa_select_mms<Scalar>("%s"); }'
+                             % (o[1], o[2], first_param[o[2]], len(fresh), o[2], len(fresh), first_param[o[2]], o[1]))
+                fresh.append('R fresh_after_init_%d 1' % len(fresh))
+                lines.append('masa_set_param<Scalar>("%s",(Scalar)%s);' % (first_param[o[2]], marker[o[1]]))
                 rsel, rval[o[1]], rname[o[1]] = o[1], marker[o[1]], o[2]
             elif o[0] == 'select':
                 lines.append('masa_select_mms<Scalar>("%s");' % o[1])
@@ -307,7 +312,7 @@ def sequences(chk, w, scalar, depth):
                 lines.append('{ std::string n_; masa_get_name<Scalar>(&n_); masa_set_param<Scalar>(n_=="euler_1d" ? "L" : "A_x",(Scalar)%d.25); }' % cnt)
                 rval[rsel] = cnt + 0.25
         lines.append('{ std::string n_; masa_get_name<Scalar>(&n_); printf("\\nR selected %s %.2f\\n", n_.c_str(), (double)masa_get_param<Scalar>(n_=="euler_1d" ? "L" : "A_x")); }')
-        expected = 'R selected %s %.2f' % (rname.get(rsel), rval.get(rsel, 0))
+        expected = ['R selected %s %.2f' % (rname.get(rsel), rval.get(rsel, 0))] + fresh
     chk.paths_clean('sequences<%s>:every-API-sequence-up-to-length-%d-matches-the-reference-registry' % (scalar, depth), [tm.TRUE] if bad else [], key='sequences', family='sequences',
                     sample=dict(obligation='API sequences', steps=count[0], failing=why),
                     replay=sequence_replay(chk, scalar, lines, bad[0] if bad else None, why, expected))
@@ -327,10 +332,11 @@ def sequence_replay(chk, scalar, lines, badseq, why, expected=None):
         want = expected
         src = '#include <masa.h>\n#include <cstdio>\n#include <string>\nusing namespace MASA;\ntypedef %s Scalar;\nint main(){\n%s\n return 0;}\n' % (cxx, '\n'.join(lines))
         rc, out, err = chk.lib().run(src)
-        if want not in out:
+        want = want if isinstance(want, list) else [want]
+        if any(x not in out for x in want):
             path = chk.save_replay(ob, dict(obligation=ob.name, sequence=[' '.join(o) for o in badseq[0]], expected=want, stdout=out[-1500:], why=why), src)
             return dict(reproduced=True, path=path, detail='sequence %s: real library does not end with the reference selection (%s); %s' % (' / '.join(' '.join(o) for o in badseq[0]), want, why[:200]))
-        return dict(reproduced=False, path=None, detail='real library follows the reference on the failing sequence (only the selected name is replayed): ' + why[:200])
+        return dict(reproduced=False, path=None, detail='real library follows the reference on the failing sequence (selection, markers, fresh defaults after each init): ' + why[:200])
     return replay
 
 
